@@ -92,6 +92,12 @@ def handleExp (ch : String) (kv : KV) : String :=
       let (_, H) := Exp.updateDualGradH z
       "eta=" ++ fmtV3 (Exp.higherCorrection H z ds v)
     | _, _, _ => "bad-request"
+  | "exp.combined_ds_shift" =>
+    match v3? kv "z", v3? kv "dz", v3? kv "ds", kv.float "sigmamu" with
+    | some z, some dz, some ds, some sm =>
+      let (g, H) := Exp.updateDualGradH z
+      "shift=" ++ fmtV3 (Exp.combinedDsShift H g z dz ds sm)
+    | _, _, _, _ => "bad-request"
   | "exp.update_scaling" =>
     match v3? kv "s", v3? kv "z", kv.float "mu", kv.nat "dual", v3? kv "x" with
     | some s, some z, some mu, some dual, some x =>
@@ -156,6 +162,12 @@ def handlePow (ch : String) (kv : KV) : String :=
       let (_, H) := Pow.updateDualGradH a z
       "eta=" ++ fmtV3 (Pow.higherCorrection a H z ds v)
     | _, _, _ => "bad-request"
+  | "pow.combined_ds_shift" =>
+    match v3? kv "z", v3? kv "dz", v3? kv "ds", kv.float "sigmamu" with
+    | some z, some dz, some ds, some sm =>
+      let (g, H) := Pow.updateDualGradH a z
+      "shift=" ++ fmtV3 (Pow.combinedDsShift a H g z dz ds sm)
+    | _, _, _, _ => "bad-request"
   | "pow.update_scaling" =>
     match v3? kv "s", v3? kv "z", kv.float "mu", kv.nat "dual", v3? kv "x" with
     | some s, some z, some mu, some dual, some x =>
@@ -231,6 +243,13 @@ def handleGenPowWith (ch : String) (kv : KV) (al : Array Float) (dim2 : Nat) (ψ
           let y ← GenPow.mulHs st.D st.mu al.size x
           pure (ok, st, y))
     | _, _, _ => "bad-request"
+  | "genpow.combined_ds_shift" =>
+    match kv.floats "z", kv.floats "dz", kv.floats "ds", kv.float "sigmamu" with
+    | some z, some dz, some ds, some sm =>
+      fmtME (fun (r : Bool × GenPow.State Float) =>
+          "ok=" ++ fmtBool r.1 ++ " shift=" ++ fmtFloats (GenPow.combinedDsShift r.2.D dz ds sm))
+        (GenPow.updateScaling al (GenPow.State.init al.size dim2) z 1)
+    | _, _, _, _ => "bad-request"
   | "genpow.unit_initialization" =>
     let u := GenPow.unitInitialization al dim2
     "z=" ++ fmtFloats u ++ " s=" ++ fmtFloats u
